@@ -164,6 +164,9 @@ def body_wiring(paste, compensated, interlaced, second, poles, nmesh):
     c.extra['keyprefix'] = 'wiring:'
     c.extra['sample'] = case
     rebind.NB.reset(64)
+    # thread-independence of the binning is C08's subject; from nmesh=3 on the per-thread accumulators' thread-id case
+    # splits would dominate the cross = auto identity, so those meshes are binned by one thread
+    NT = 2 if nmesh <= 2 else 1
     painted = []
     ffts = []
 
@@ -203,7 +206,7 @@ def body_wiring(paste, compensated, interlaced, second, poles, nmesh):
     with warnings.catch_warnings():
         warnings.simplefilter('ignore')
         res = R.calc_power(pos, Lbox, kbins=2, mubins=None, paste=paste, nmesh=nmesh, compensated=compensated, interlaced=interlaced, w=w,
-                           poles=list(poles) or None, nthread=2, dtype=arrays.T('f4'), **kw)
+                           poles=list(poles) or None, nthread=NT, dtype=arrays.T('f4'), **kw)
     # (1) painting wiring: every paint of the first field uses the same particles and weights, offsets {0} or {0, d/2}
     first = [p for p in painted if p['pos'] is pos or (paste == 'CIC' and interlaced)]
     nfields = 1 if second is None else 2
@@ -247,7 +250,7 @@ def body_wiring(paste, compensated, interlaced, second, poles, nmesh):
         with warnings.catch_warnings():
             warnings.simplefilter('ignore')
             auto = R.calc_power(pos, Lbox, kbins=2, mubins=None, paste=paste, nmesh=nmesh, compensated=compensated, interlaced=interlaced, w=w,
-                                poles=list(poles) or None, nthread=2, dtype=arrays.T('f4'))
+                                poles=list(poles) or None, nthread=NT, dtype=arrays.T('f4'))
         # identify the opaque symbols of the second field's paints/FFTs with the first field's (same particles => same paint, same FFT)
         sub = []
         for k in range(per):
@@ -264,6 +267,13 @@ def body_wiring(paste, compensated, interlaced, second, poles, nmesh):
             for x, y in zip(real_np.asarray(res[col]).ravel(), real_np.asarray(auto[col]).ravel()):
                 conds.append(z3.substitute(core._b(core.lift(x) == core.lift(y)), *sub))
         for cd in conds:
+            # polynomial identity in the opaque FFT symbols: first by normalisation (sum of monomials), the solver only if that leaves a residue
+            if z3.is_eq(cd):
+                d = z3.simplify(cd.arg(0) - cd.arg(1), som=True, arith_lhs=True, flat=True)
+                if z3.is_rational_value(d) and d.numerator_as_long() == 0:
+                    c.stats.proved += 1
+                    c.stats.queries += 1
+                    continue
             c.prove(cd, 'passing the same particles as the second field gives the auto power (cross = auto)', key='wiring:cross-auto')
 
 
@@ -275,13 +285,15 @@ def items(tier, seed):
         out.append(dict(name=f'shift_field_fft/n1d={n}', kind='shift', n1d=n))
         if n <= 4:
             out.append(dict(name=f'normalize/n1d={n}', kind='norm', n1d=n))
-    for nm in ((2,) if tier == 'quick' else (2, 3)):
+    for nm in (2, 3):
         for paste in ('TSC', 'CIC'):
             for comp in (True, False):
                 for inter in (True, False):
                     for second in (None, 'same', 'other'):
                         if second == 'other' and not (comp and inter):
                             continue
+                        if nm == 3 and tier == 'quick' and not (comp and second == 'same'):
+                            continue        # nmesh=2 has window 1 on every binned mode: the compensation only shows from nmesh=3
                         poles = (0, 2) if (comp != inter) else ()
                         out.append(dict(name=f'wiring/nmesh={nm}/{paste}/comp={int(comp)}/inter={int(inter)}/second={second}/poles={len(poles)}', kind='wiring',
                                         paste=paste, comp=comp, inter=inter, second=second, poles=poles, nmesh=nm))
